@@ -63,7 +63,7 @@ func ParseStrict(s string) (*big.Rat, int, bool) {
 // [+-]? (digits [. digits*] | . digits) ([eE] [+-]? digits)?
 // It returns the exact value and the number of decimal places of the (coefficient, exponent)
 // representation (max(0, fraction digits - exponent)), which is how arbitrary-precision decimal
-// libraries define "decimal places". Exponents beyond +-5000 are refused.
+// libraries define "decimal places". Exponents beyond +-1000000 are refused.
 func ParseLenient(s string) (*big.Rat, int, bool) {
 	t := s
 	neg := false
@@ -84,11 +84,11 @@ func ParseLenient(s string) (*big.Rat, int, bool) {
 			esign = -1
 			es = es[1:]
 		}
-		if !allDigits(es) || len(es) > 5 {
+		if !allDigits(es) || len(es) > 7 {
 			return nil, 0, false
 		}
 		v, _ := strconv.Atoi(es)
-		if v > 5000 {
+		if v > 1000000 {
 			return nil, 0, false
 		}
 		exp = esign * v
